@@ -148,6 +148,8 @@ type caseDoc struct {
 	Ctx     bool   `json:"contexts"`
 	Fan     bool   `json:"two_receivers"`
 	Stale   bool   `json:"stale_header"`
+	Hops    int    `json:"raw_backtrace_words,omitempty"`
+	HdrFrst bool   `json:"header_filled_first,omitempty"`
 	RSeed   string `json:"rseed"`
 }
 
@@ -216,6 +218,30 @@ func runCase(t *rapid.T, cfg config) {
 	stale := !cfg.raw && msgAPI && pat.name != "pair" && pat.name != "pubsub" && pat.name != "pushpull" && rapid.IntRange(0, 3).Draw(t, "staleHeader") == 0
 	doc.Stale = stale
 
+	// Raw request/survey messages may carry a backtrace as if they had crossed devices: the header the
+	// application builds is then longer than the 32 bytes a new message reserves for it.
+	hops := 0
+	if cfg.raw && pat.reply && fixedSizes == nil && limit >= 256 {
+		hops = rapid.SampledFrom([]int{0, 0, 1, 6, 7, 8, 9, 15}).Draw(t, "backtraceWords")
+		for i := range sizes {
+			if max := limit - 4*hops - 16; hops > 0 && sizes[i] > max {
+				sizes[i] = max
+			}
+			if max := limit - 4*hops - 16; hops > 0 && rsizes[i] > max {
+				rsizes[i] = max
+			}
+		}
+	}
+	headerFirst := cfg.raw && rapid.Bool().Draw(t, "headerFirst")
+	doc.Hops, doc.HdrFrst = hops, headerFirst
+	backtrace := make([]byte, 4*hops)
+	for i := range backtrace {
+		backtrace[i] = byte(key>>uint(8*(i%8))) ^ byte(i)
+		if i%4 == 0 {
+			backtrace[i] &= 0x7f // not the last word
+		}
+	}
+
 	a, b := fixture.New(an), fixture.New(bn)
 	defer a.Close()
 	defer b.Close()
@@ -240,6 +266,9 @@ func runCase(t *rapid.T, cfg config) {
 		setOpt(t, a, mangos.OptionSurveyTime, 20*time.Second)
 	}
 	for _, rb := range recvs {
+		if hops > 0 {
+			setOpt(t, rb, mangos.OptionTTL, 255)
+		}
 		if bn == "sub" {
 			setOpt(t, rb, mangos.OptionSubscribe, []byte{})
 		}
@@ -288,6 +317,11 @@ func runCase(t *rapid.T, cfg config) {
 			return err
 		}
 		m := mangos.NewMessage(len(body))
+		if headerFirst && hdr != nil {
+			m.Header = append(m.Header, hdr...)
+			m.Body = append(m.Body, body...)
+			return s.SendMsg(m)
+		}
 		m.Body = append(m.Body, body...)
 		if hdr != nil {
 			m.Header = append(m.Header, hdr...)
@@ -332,13 +366,21 @@ func runCase(t *rapid.T, cfg config) {
 	if pat.reply {
 		for i := 0; i < n; i++ {
 			body := fixture.Payload(key+uint64(i), sizes[i])
-			if err := send(a, an, rawHeader(an, uint32(i+1)), body); err != nil {
+			sentHdr := rawHeader(an, uint32(i+1))
+			if hops > 0 {
+				sentHdr = append(append([]byte(nil), backtrace...), sentHdr...)
+			}
+			if err := send(a, an, sentHdr, body); err != nil {
 				fail("send-error", "request %d (len %d): %v", i, len(body), err)
 				return
 			}
 			h, got, err := recv(b)
 			check("request", i, body, got, err)
 			if err != nil {
+				return
+			}
+			if cfg.raw && (len(h) < 4 || !bytes.Equal(h[4:], sentHdr)) {
+				fail("mismatch", "request %d: sent with the %d-byte header %x, received with header %x (want a connection id followed by the header sent)", i, len(sentHdr), sentHdr, h)
 				return
 			}
 			if fan {
@@ -358,7 +400,12 @@ func runCase(t *rapid.T, cfg config) {
 				return
 			}
 			_, got, err = recv(a)
-			check("reply", i, rbody, got, err)
+			if hops > 0 && err == nil {
+				// the raw requester keeps the first word as header; the rest of the backtrace stays in front of the body
+				check("reply", i, append(append([]byte(nil), sentHdr[4:]...), rbody...), got, err)
+			} else {
+				check("reply", i, rbody, got, err)
+			}
 			if err != nil {
 				return
 			}
@@ -418,6 +465,9 @@ func runCase(t *rapid.T, cfg config) {
 	stats.Eval()
 	stats.Class("tr:" + cfg.tr)
 	stats.Class("pat:" + pat.name)
+	if hops >= 8 {
+		stats.Class("raw_header_over_32_bytes")
+	}
 	if fan {
 		stats.Class("two_receivers")
 	}
